@@ -334,6 +334,32 @@ impl Property for C01 {
                 }
             }
         }
+        // (iii-c) thousands of bits: the unbounded types (and the 2560-bit fixed type) against
+        // operands of several types and lengths
+        for lt in [TID_D, TID_A, 18u8] {
+            for rt in [TID_D, TID_A, 18u8, 11u8, 4u8] {
+                if !sh.mine() {
+                    continue;
+                }
+                let lc = fixed_cap(lt).unwrap_or(usize::MAX);
+                let rc = fixed_cap(rt).unwrap_or(usize::MAX);
+                for n in LONG_LENS {
+                    let n = n.min(lc);
+                    for m in [n, n / 2 + 7, 64usize] {
+                        let m = m.min(rc);
+                        for a in long_values(n) {
+                            for b in [Bits::ones(m), long_values(m)[1].clone(), Bits::from_u128(3, m)] {
+                                for op in ARITH {
+                                    if !emit(lt, &a, Rhs::V(Operand::canon(rt, b.clone())), op, f) {
+                                        return;
+                                    }
+                                }
+                            }
+                        }
+                    }
+                }
+            }
+        }
         // (iv) all value pairs of Bvf<u8,1> at full width (the u8 primitives, exhaustively)
         for av in 0u32..256 {
             if !sh.mine() {
